@@ -10,7 +10,7 @@ import vlib, refs, pairs
 _UH = {}
 SIZES = {  # (quick, thorough) number of pairs per stratum
     "uniform": (120, 2500), "threshold": (260, 6000), "grey": (80, 3000), "named": (60, 2000),
-    "nearbg": (80, 2000), "hair": (60, 1200), "witness": (900, 20000), "witness_neargrey": (900, 20000), "witness_translucent": (900, 20000), "spell": (130, 3000), "isolum": (150, 3000), "hairline": (70, 1500), "corner": (120, 2500), "zeroone": (40, 400), "edge": (120, 2500), "ultrahair": (90, 1500), "neargrey": (90, 1500), "informal": (60, 1000),
+    "nearbg": (80, 2000), "hair": (60, 1200), "witness": (900, 20000), "witness_neargrey": (900, 20000), "witness_translucent": (900, 20000), "spell": (130, 3000), "isolum": (150, 3000), "hairline": (70, 1500), "corner": (120, 2500), "zeroone": (40, 400), "edge": (120, 2500), "ultrahair": (90, 1500), "neargrey": (90, 1500), "informal": (60, 1000), "razor": (150, 3000), "extreme": (60, 1500), "witness_hsl": (900, 20000),
 }
 
 
@@ -30,11 +30,11 @@ def strata(pid, t, rnd):
     def spelled(c, kind):
         return pairs.spell(c, kind, rnd)
 
-    w = {"C01": dict(uniform=1, threshold=1, grey=1, named=1, nearbg=.5, hair=.5, spell=1, isolum=.3, hairline=1, corner=.5, zeroone=1, edge=.5, ultrahair=1, neargrey=.5, informal=.5),
-         "C02": dict(uniform=.7, threshold=1, grey=.7, named=.5, nearbg=.7, hair=1.5, spell=.6, isolum=4, hairline=1, corner=3, zeroone=1, ultrahair=.5, neargrey=1.5, informal=1.5),
+    w = {"C01": dict(uniform=1, threshold=1, grey=1, named=1, nearbg=.5, hair=.5, spell=1, isolum=.3, hairline=1, corner=.5, zeroone=1, edge=.5, ultrahair=1, neargrey=.5, informal=.5, razor=1, extreme=.5),
+         "C02": dict(uniform=.7, threshold=1, grey=.7, named=.5, nearbg=.7, hair=1.5, spell=.6, isolum=4, hairline=1, corner=3, zeroone=1, ultrahair=.5, neargrey=1.5, informal=1.5, razor=1.4, extreme=.5),
          "C16": dict(uniform=.5, threshold=1.2, grey=.5, named=.3, nearbg=2.0, hair=.3, spell=.2, isolum=.5, edge=2, corner=.3),
          "C04": dict(uniform=1, threshold=1, grey=.5, named=.3, nearbg=1.5, hair=.2, spell=.3, isolum=.5),
-         "C03": dict(witness=1, witness_neargrey=.25, witness_translucent=.2)}[pid]
+         "C03": dict(witness=1, witness_neargrey=.25, witness_translucent=.2, witness_hsl=.25, extreme=3)}[pid]
     for name, scale in w.items():
         n = n_of(name, t, scale)
         for k in range(n):
@@ -132,6 +132,24 @@ def strata(pid, t, rnd):
                             add(txt, bgc, large, "informal", witness=True, runs=[(m, v2) for v2 in (True, False) for m in (0, 1, 2)])
                             specs[-1]["comp"] = dict(pairs.LAST_COMP[0])
                             break
+            elif name == "razor":
+                # ratio within 3e-7 of a label threshold, both sides (only the fine tables of Wcag.tla can tell which):
+                # large text so that 3.0 and 4.5 are the requirements in play, normal text for 4.5 and 7.0
+                tq = REQS[k % 3]
+                a, b = pairs.razor(rnd, tq, "above" if k % 5 < 3 else "below")
+                lg = (tq == 3.0) or (tq == 4.5 and bool(k & 8))
+                add(a, b, lg, runs=[(m, v2) for v2 in (False, True) for m in (0, 1, 2)] if k % 2 else None)
+                if specs[-1].get("runs") is None:
+                    del specs[-1]["runs"]
+            elif name == "extreme":
+                a, b, vr_, lg = pairs.extreme_only(rnd)
+                add(a, b, lg, witness=True, runs=[(m, v2) for v2 in (vr_, not vr_) for m in (0, 1, 2)])
+            elif name == "witness_hsl":
+                vr = bool(rnd.getrandbits(1))
+                tq = pairs.REQ[(large, vr)]
+                a, b = pairs.near_threshold(rnd, tq, (0.0, 0.07))
+                txt = pairs.spell(a, "hslfn", rnd)          # whole degrees and percentages: denotes a colour next to a
+                add(txt, b, large, "hslfn", witness=True, runs=[(m, v2) for v2 in (True, False) for m in (0, 1, 2)])
             elif name == "edge":
                 a, b = pairs.edge_near_threshold(rnd, rnd.choice(REQS))
                 add(a, b, large)
